@@ -16,7 +16,8 @@ RULE = ("hash clause: EVERY byte length 0..1024 x {zeros, ff, counter, random} (
         "boundary), judged against OpenSSL RIPEMD160(SHA256) and an own RIPEMD-160; address clause: keys from scalar classes "
         "(1, 2, n-1, both parities, x with leading zero bytes from a committed corpus, random) x {mainnet,testnet} x five "
         "kinds + compressed/uncompressed P2PKH, each decoded by the independent Base58Check/Bech32 decoder; distinct = distinct "
-        "(monitor, case) digests")
+        "(monitor, case) digests"
+        " EXTENSIONS: + committed corpus of inputs driving RIPEMD-160 through all-ones / zero internal words, key objects parsed from compressed / uncompressed / hybrid / raw SEC, both forms asked twice in either order, leading-zero Y corpus")
 LEVEL_TEXT = ("Each address string produced by the five BaseWallet.*_address methods, PublicKey.address and the h160/h256 "
               "helpers is decoded with an independent decoder and compared with version byte / hrp+witness version and the "
               "HASH160 / SHA-256 of the key or standard script computed by the reference model; script builders are compared "
@@ -282,6 +283,14 @@ def run(ctx):
             judge_hash_len(ctx, {"msg": gen.rbytes(rnd, rnd.randrange(0, 300)), "pat": "random"})
         if ctx.shard == 0:
             judge_hash_len(ctx, {"msg": b"a" * 1000000, "pat": "1MB"})
+    # inputs that drive the bundled RIPEMD-160 through rare internal words (all-ones / zero rotation inputs)
+    rare = gen.hash160_rare_inputs()
+    ctx.extra["hash160_rare_state_corpus"] = len(rare)
+    for msg, ev in rare:
+        n += 1
+        if ctx.mine(n):
+            judge_hash_len(ctx, {"msg": msg, "pat": "rare:" + ev})
+            judge_hash_len(ctx, {"msg": sha256(msg), "pat": "rare-direct:" + ev})     # (the same block fed to ripemd160 directly)
     inst = install_probes(ctx)
     try:
         corner = [("k=1", 1), ("k=2", 2), ("k=n-1", secp.N - 1)] + [("K:x-leading-zero", k) for k in lzx]
